@@ -463,7 +463,7 @@ Eval(dyn, ud, F, q2, u2, tasks, cons, felems, felems2) ==
                                VAdd(B1.a, VAdd(Cross(B1.aw, r1), Cross(B1.w, Cross(B1.w, r1)))))
                IN [perr |-> Dot(p, p), verr |-> Dot(p, pd), aerr |-> RAdd(Dot(p, pdd), Dot(pd, pd))]
           [] c.type = "ballc" ->
-               \* one component (c.part) of a Ball between station st of b1 and station st2 of b2, expressed in the Ancestor frame c.anc
+               \* one component (c.comp) of a Ball between station st of b1 and station st2 of b2, expressed in the Ancestor frame c.anc
                \* (the outmost common ancestor of the two bodies), as the library documents it:  perr = p_AS - p_AP;  verr = v_AS - v_AC and
                \* aerr = a_AS - a_AC for the MATERIAL POINT C of b1 that coincides with S, velocities and accelerations measured in A
                LET B1 == BodyK(K, c.b1)  B2 == BodyK(K, c.b2)  A == BodyK(K, c.anc)
@@ -474,7 +474,7 @@ Eval(dyn, ud, F, q2, u2, tasks, cons, felems, felems2) ==
                    dv == VSub(VAdd(B2.v, Cross(B2.w, rS)), VAdd(B1.v, Cross(B1.w, rC)))
                    da == VSub(VAdd(B2.a, VAdd(Cross(B2.aw, rS), Cross(B2.w, Cross(B2.w, rS)))),
                               VAdd(B1.a, VAdd(Cross(B1.aw, rC), Cross(B1.w, Cross(B1.w, rC)))))
-                   i == c.part + 1
+                   i == c.comp + 1
                IN [perr |-> MV(RA, VSub(pS, VAdd(BodyP(c.b1), rP)))[i],
                    verr |-> MV(RA, dv)[i],
                    aerr |-> MV(RA, VSub(da, VScale(R(2), Cross(A.w, dv))))[i]]
